@@ -9,6 +9,7 @@ import (
 	"fmt"
 	"os"
 	"path/filepath"
+	"reflect"
 	"runtime/pprof"
 	"strconv"
 	"strings"
@@ -19,8 +20,10 @@ import (
 	"github.com/dgraph-io/badger/v4"
 
 	"github.com/bloxapp/ssv/eth/eventhandler"
+	operatorstorage "github.com/bloxapp/ssv/operator/storage"
 	beaconprotocol "github.com/bloxapp/ssv/protocol/v2/blockchain/beacon"
 	qbftstorage "github.com/bloxapp/ssv/protocol/v2/qbft/storage"
+	ssvtypes "github.com/bloxapp/ssv/protocol/v2/types"
 	registrystorage "github.com/bloxapp/ssv/registry/storage"
 	"github.com/bloxapp/ssv/storage/basedb"
 	"github.com/bloxapp/ssv/storage/kv"
@@ -192,7 +195,78 @@ func (s *session) checkMemDB(when string) {
 	s.checkMemDBViews(when, memView(s.p), dbView(s.raw))
 }
 
+// checkReloadedShares: FIELD-COMPLETE comparison of every share as a freshly started process decodes it from the
+// database with the share in memory (every exported field of spectypes.Share and of Metadata: keys, committee ids and
+// share keys, Quorum, PartialQuorum, DomainType, FeeRecipientAddress, Graffiti, OwnerAddress, Liquidated,
+// BeaconMetadata), and of both with what the committee size prescribes (n = 3f+1: Quorum 2f+1, PartialQuorum f+1).
+func (s *session) checkReloadedShares(when string) {
+	if s.retry {
+		return
+	}
+	prop := "C12"
+	if modeC11 {
+		prop = "C11"
+	}
+	fresh, err := operatorstorage.NewNodeStorage(logger, s.raw)
+	must(err)
+	mem := map[string]*ssvtypes.SSVShare{}
+	for _, sh := range s.p.ns.Shares().List(nil) {
+		mem[string(sh.ValidatorPubKey)] = sh
+	}
+	quorumOK := func(sh *ssvtypes.SSVShare) bool {
+		n := len(sh.Committee)
+		f := (n - 1) / 3
+		return n != 3*f+1 || (sh.Quorum == uint64(2*f+1) && sh.PartialQuorum == uint64(f+1))
+	}
+	for _, re := range fresh.Shares().List(nil) {
+		v := idOfVal(re.ValidatorPubKey)
+		if !quorumOK(re) {
+			s.run.Violate(prop+"/reloaded-share-quorum-not-2f+1", fmt.Sprintf("%s: validator %d reloaded from the database with %d members has Quorum=%d PartialQuorum=%d", when, v, len(re.Committee), re.Quorum, re.PartialQuorum), s.lines...)
+			return
+		}
+		m, ok := mem[string(re.ValidatorPubKey)]
+		if !ok {
+			continue // presence is judged by the memory-vs-database oracle
+		}
+		if !quorumOK(m) {
+			s.run.Violate(prop+"/memory-share-quorum-not-2f+1", fmt.Sprintf("%s: validator %d in memory with %d members has Quorum=%d PartialQuorum=%d", when, v, len(m.Committee), m.Quorum, m.PartialQuorum), s.lines...)
+			return
+		}
+		if field := firstDifferentField(reflect.ValueOf(m.Share), reflect.ValueOf(re.Share)); field != "" {
+			s.run.Violate(prop+"/reloaded-share-differs-from-memory:"+field, fmt.Sprintf("%s: validator %d: field %s in memory %v, reloaded %v", when, v, field, reflect.ValueOf(m.Share).FieldByName(field), reflect.ValueOf(re.Share).FieldByName(field)), s.lines...)
+			return
+		}
+		if field := firstDifferentField(reflect.ValueOf(m.Metadata), reflect.ValueOf(re.Metadata)); field != "" {
+			s.run.Violate(prop+"/reloaded-share-differs-from-memory:"+field, fmt.Sprintf("%s: validator %d: metadata field %s differs between memory and the reloaded share", when, v, field), s.lines...)
+			return
+		}
+	}
+	s.run.Tag("oracle:reloaded-shares-field-complete")
+}
+
+// firstDifferentField: name of the first EXPORTED field in which two struct values differ ("" if none); nil and empty
+// byte slices count as equal (gob does not distinguish them)
+func firstDifferentField(a, b reflect.Value) string {
+	t := a.Type()
+	for i := 0; i < t.NumField(); i++ {
+		if t.Field(i).PkgPath != "" {
+			continue
+		}
+		x, y := a.Field(i).Interface(), b.Field(i).Interface()
+		if bx, ok := x.([]byte); ok {
+			if by, _ := y.([]byte); len(bx) == 0 && len(by) == 0 {
+				continue
+			}
+		}
+		if !reflect.DeepEqual(x, y) {
+			return t.Field(i).Name
+		}
+	}
+	return ""
+}
+
 func (s *session) checkMemDBViews(when, mv, dbv string) {
+	s.checkReloadedShares(when)
 	if s.retry {
 		return
 	}
